@@ -1,6 +1,7 @@
 import ScyllaVerif.Model.Util
 import ScyllaVerif.Model.Pager
 import ScyllaVerif.Model.PagerExec
+import ScyllaVerif.Model.PagerWake
 /-! Line-protocol driver for C07.
 
 Case: `pg|sess|sessdg <skip 0|1> <eager|slow|drop<k>|pdrop<k>> <page> <page> ...` (`pg`: single-connection
@@ -70,16 +71,19 @@ inductive Kind where
   | conn | sess | dg | cluster (n : Nat) (idem : Bool)
   deriving DecidableEq
 
-/-- `pg` / `pgk`: single-connection pager; `sess`: session pager, prepared statement; `squery`: session
-pager, unprepared statement (QUERY frames); `sessdg`: downgrading policy; `clu<n>i` / `clu<n>n`: session
-pager on an `n`-node cluster, idempotent / not idempotent statement. -/
+/-- `pg` / `pgk`: single-connection pager; `sess` / `sessk`: session pager, prepared statement; `squery`:
+session pager, unprepared statement (QUERY frames); `squeryv`: `query_iter` with values (prepared
+internally); `scache`: `CachingSession::execute_iter`; `sessdg`: downgrading policy; `clu<n>i` / `clu<n>n`:
+session pager on an `n`-node cluster, idempotent / not idempotent statement; `cls<n>i|n`: the same on
+sharded nodes. Consumer `kill<k>` (cluster kinds): the coordinator is stopped after `k` rows - for the page
+loop an eager run (the dead node is skipped without a request). -/
 /- `ctl`: the control connection's own use of the single-connection pager (the paged `system.peers`
 query of the metadata fetch, `ControlConnection::query_iter` -> `Connection::execute_iter`). -/
 def kindOf (k : String) : Option Kind :=
   if k == "pg" || k == "pgk" || k == "sessk" || k == "ctl" then some .conn
-  else if k == "sess" || k == "squery" then some .sess
+  else if k == "sess" || k == "squery" || k == "squeryv" || k == "scache" then some .sess
   else if k == "sessdg" then some .dg
-  else if k.startsWith "clu" && k.length == 5 then
+  else if (k.startsWith "clu" || k.startsWith "cls") && k.length == 5 then
     match (k.drop 3).toString.toList with
     | [d, f] =>
       if d.isDigit && d != '0' && (f == 'i' || f == 'n') then some (.cluster (d.toNat - 48) (f == 'i')) else none
@@ -96,7 +100,7 @@ def lettersOk (kind : String) (ps : List (Nat × Option PState × List Char)) : 
   !later.contains 'X' && !later.contains 'k' && !later.contains 'K' &&
   (if kind == "pg" || kind == "pgk" || kind == "sessk" then !all.contains 'k' && !all.contains 'K' else true) &&
   (if kind == "squery" then !all.contains 'u' else true) &&
-  (if kind.startsWith "clu" then all.all (fun c => c == 'd' || (ScyllaVerif.PagerExec.outcomeOf c).isSome) else true) &&
+  (if kind.startsWith "clu" || kind.startsWith "cls" then all.all (fun c => c == 'd' || (ScyllaVerif.PagerExec.outcomeOf c).isSome) else true) &&
   (if kind == "sessdg" then !all.contains 'X' else true) &&
   (if kind == "ctl" then all.all (fun c => c == 'u' || c == 'd') else true)
 
@@ -170,7 +174,14 @@ def runCore (case impl : String) : String :=
         | some .dg => (ps.map fun p => dgAttempts false p.2.2).flatten
         | _ => buildFaults ps)
       let fuel := 4 * measure s0 + 16
-      if cons == "eager" || cons == "slow" then
+      if cons.startsWith "kill" && !((kind.startsWith "clu" || kind.startsWith "cls") && (cons.drop 4).toString.toNat?.isSome
+          && kindOf kind != some (.cluster 1 true) && kindOf kind != some (.cluster 1 false)) then "bad-case" else
+      if cons.startsWith "kill" && !((ps.map fun p => p.2.2).flatten.all fun c => c == 'd' || c == 'R') then "bad-case" else
+      if cons == "eager" || cons.startsWith "kill" then
+        -- a bare `next().await` loop: the consumer is polled only when woken (Model/PagerWake.lean)
+        let s := (ScyllaVerif.PagerWake.runEagerW true fuel ⟨s0, true, false⟩).s
+        showSt s (showLog s)
+      else if cons == "slow" || cons == "timed" then
         let s := runEager fuel s0
         showSt s (showLog s)
       else if cons.startsWith "pdrop" then
